@@ -453,7 +453,12 @@ def parse_single_name_into_parts(name, strict=True):
                 firstl = cases.index(0) - len(cases)
                 lastl = -cases[::-1].index(0) - 1
                 if lastl == -1:
-                    lastl -= 1  # Cannot consume the rest of the string.
+                    # The final word cannot be part of von (last cannot be empty):
+                    # von ends with the last lowercase word before it, if any.
+                    if 0 in cases[:-1]:
+                        lastl = -cases[-2::-1].index(0) - 2
+                    else:
+                        lastl -= 1
 
                 # Pull the parts out.
                 parts.first = p0[:firstl]
